@@ -7,11 +7,15 @@
     LexerTrace.tla (Tiling: contiguous tokens, a byte skipped only under a reported warning; Progress: no empty
     token; mode/stack relation LexTok).  Only Tiling/Progress rejections re-derived from the raw events are verdicts.
 (3) every tree returned for these inputs is checked token by token by the worker (value = source slice, lines by the
-    LF/CRLF/CR rule, order, disjointness; with zero errors: full tiling, free-floating classes, leaf values)."""
+    LF/CRLF/CR rule, order, disjointness; with zero errors: full tiling, free-floating classes, leaf values).
+(4) NewLines.tla (line table fed by the new_line action, head set-backs, GetLine): TLC checks Sorted / Exact /
+    LinesRight / CrLfOnce; every behaviour is replayed on the real scanner.NewLines, and every string over
+    {LF, CR, other} up to the bound is lexed in 17 lexical contexts: recorded line starts and token lines must be
+    those of the bytes."""
 import json
 import random
 
-from . import core, inputs, lexgen, lextrace, c01
+from . import core, inputs, lexgen, lextrace, c01, newlines
 
 
 def rederive(events, at_index):
@@ -144,6 +148,14 @@ def run(tier):
                                  "family": c01.family(src, t["ver"])},
                                 {"src": t["src"], "ver": t["ver"], "fail": f})
     check.cov["trees_checked"] = ntrees
+    # (4) the line table (NewLines.tla): Append/GetLine behaviours replayed, and every LF/CR/other string in every
+    # lexical context of the real scanner
+    mn, mb = (5, 2) if tier == "quick" else (7, 2)
+    behs = newlines.behaviours(check, mn, mb)
+    check.count(len(behs))
+    check.cov["line_table_behaviours"] = len(behs)
+    for sig, rep in newlines.replay(check, wp, behs) + newlines.contexts(check, wp, mn if tier == "quick" else 6):
+        check.violation(sig, rep)
     check.sample({"direction": "spec->impl", "path": lc[len(lc) // 2]["path"], "src": lc[len(lc) // 2]["src"].decode("latin-1"),
                   "expected_tokens": lc[len(lc) // 2]["exp"][:8]})
     check.sample({"direction": "impl->spec", "trace_head": traces[0][1][:6]})
